@@ -401,30 +401,34 @@ fn minimise(lines: &[Vec<u8>], qn: &[u8], qe: &[u8]) -> Option<(Vec<Vec<u8>>, Ve
         }
     }
     for i in 0..cur.len() {
-        let l = cur[i].clone();
-        let mut candidates: Vec<Vec<u8>> = Vec::new();
-        if let Some(p) = l.iter().rposition(|c| *c == b'>') {
-            candidates.push(l[..=p].to_vec()); // without trailing text
-        }
-        if l.ends_with(b" <>") {
-            candidates.push(l[..l.len() - 3].to_vec());
-        }
-        let mut t = l.clone();
-        for sp in [&b"\xc2\xa0"[..], b"\x0b", b"\x0c", b"\xe2\x80\x83"] {
-            t = t.replace(sp, b" ");
-        }
-        candidates.push(t);
-        let mut t = l.clone();
-        while t.find("< ").is_some() || t.find(" >").is_some() {
-            t = t.replace("< ", "<").replace(" >", ">");
-        }
-        candidates.push(t);
-        for c in candidates {
-            if c != cur[i] {
-                let mut t = cur.clone();
-                t[i] = c;
-                if differs(&t, &qn, &qe) {
-                    cur = t;
+        // every step starts from the current state of the line
+        for step in 0..4 {
+            let l = cur[i].clone();
+            let candidate: Option<Vec<u8>> = match step {
+                0 => l.iter().rposition(|c| *c == b'>').map(|p| l[..=p].to_vec()), // without trailing text
+                1 => l.ends_with(b" <>").then(|| l[..l.len() - 3].to_vec()),
+                2 => {
+                    let mut t = l.clone();
+                    for sp in [&b"\xc2\xa0"[..], b"\x0b", b"\x0c", b"\xe2\x80\x83"] {
+                        t = t.replace(sp, b" ");
+                    }
+                    Some(t)
+                }
+                _ => {
+                    let mut t = l.clone();
+                    while t.find("< ").is_some() || t.find(" >").is_some() {
+                        t = t.replace("< ", "<").replace(" >", ">");
+                    }
+                    Some(t)
+                }
+            };
+            if let Some(c) = candidate {
+                if c != cur[i] {
+                    let mut t = cur.clone();
+                    t[i] = c;
+                    if differs(&t, &qn, &qe) {
+                        cur = t;
+                    }
                 }
             }
         }
@@ -466,8 +470,8 @@ fn cause_of(lines: &[Vec<u8>], qn: &[u8], qe: &[u8]) -> Vec<String> {
     let (gn, ge) = gix_resolve(&join_lines(lines), qn, qe);
     let (mn, me) = model_lookup(&model_build(lines), qn, qe);
     if ge != me && eq_icase(&ge, &me) && gn == mn {
-        // the only difference is the spelling of the email
-        tags.insert("email-respelled");
+        // the only difference is the letter case of the email: nothing else can be the cause
+        return vec!["email-respelled".to_string()];
     }
     for l in lines {
         let g = git_parse_line(l);
@@ -497,6 +501,11 @@ fn cause_of(lines: &[Vec<u8>], qn: &[u8], qe: &[u8]) -> Vec<String> {
     }
     if simple >= 2 {
         tags.insert("several-simple-entries-for-one-email");
+    }
+    if tags.contains("non-utf8") {
+        // keys that are not UTF-8 are ordered differently from the others in the snapshot's sorted tables, which can
+        // surface as any symptom; the witness minimiser keeps such bytes only if the disagreement needs them
+        return vec!["non-utf8".to_string()];
     }
     if tags.len() > 1 {
         // a stray bracket matters only through what it does to the rest of the line
